@@ -266,6 +266,9 @@ func readItem(r *thrift.BufferReader, it *item) (mismatch string, err error) {
 
 func runC01(c *sim.Ctx) {
 	cfg := c.Cfg
+	// the span-cache switch is process-wide configuration: every scenario runs under both
+	thrift.SetSpanCache(cfg.Chance(1, 2))
+	defer thrift.SetSpanCache(false)
 	c.SetupAlloc(allocCfg(cfg, false))
 	st := c.Tape.S("ops")
 	items, enc := genRecord(c, st, 40)
